@@ -78,6 +78,12 @@ def strata(tier):
             for fan in ([FANS[j % len(FANS)]] + ([FANS[(j + 3) % len(FANS)]] if j < 4 else [])):
                 yield {"rules": [{"path": PC.mkpath(fan), "cond": leaf, "cast": None if j % 3 else _cast(rng)}],
                        "doc": doc}
+    for parts, _doc in PC.systematic_paths(tier):
+        if _doc is PC.BIG_DOC:
+            for cast in (None, [["str", "int"]]):
+                yield {"rules": [{"path": parts, "cond": PC.L("value", "is_instance", {"$type": "int"}), "cast": cast},
+                                 {"path": PC.mkpath([{"p": "prim", "v": "recs"}, {"p": "list"}, {"p": "prim", "v": "id"}]),
+                                  "cond": PC.L("value", "less_than", 65), "cast": None}], "doc": PC.BIG_DOC}
     conds = [PC.L("value", "is_instance", {"$type": "int"}), PC.L("value", "truthy"), PC.L("value", "greater_than", 2),
              PC.L("value", "equal_to", True), PC.L("value", "has_factor", 2), {"c": "null"}]
     for cast in ([["str", "bool"]], [["str", "int"]]):
